@@ -7,9 +7,9 @@ LATTICE_FNS = ["Lattice::reset", "Lattice::reset_vec", "Lattice::connect_bos", "
 
 # whole-lattice topologies: (name, chars, [(begin,end)...] in LatticeBuilder order, tiers)
 SHAPES = [
-    ("2c_homographs", 2, [(0, 1), (0, 1), (0, 2), (1, 2), (1, 2)], ("quick", "thorough")),
+    ("2c_homographs", 2, [(0, 1), (0, 1), (0, 2), (1, 2), (1, 2)], ("thorough",)),
     ("2c_minimal", 2, [(0, 1), (0, 2), (1, 2)], ("quick", "thorough")),
-    ("3c_chain_and_long", 3, [(0, 1), (0, 3), (1, 2), (2, 3)], ("quick", "thorough")),
+    ("3c_chain_and_long", 3, [(0, 1), (0, 3), (1, 2), (2, 3)], ("thorough",)),
     ("3c_overlaps", 3, [(0, 1), (0, 2), (1, 2), (1, 3), (2, 3)], ("thorough",)),
     ("3c_deadend_gap", 3, [(0, 2), (0, 3), (2, 3), (2, 3)], ("thorough",)),
     ("4c_fib", 4, [(0, 1), (0, 2), (1, 2), (1, 3), (2, 3), (2, 4), (3, 4)], ("thorough",)),
@@ -136,6 +136,7 @@ def params(ctx):
     p = {"quick": dict(NL=3, NR=2, K=3, UNW_STEP=8), "thorough": dict(NL=4, NR=3, K=4, UNW_STEP=14)}[ctx.tier]
     gen = [gen_shape(n, c, nodes)[0] for (n, c, nodes, tiers) in SHAPES if ctx.tier in tiers]
     p["GENERATED"] = "\n\n".join(gen)
+    p["MOD"] = "verif_c02"
     return p
 
 
